@@ -122,11 +122,32 @@ def analyse_next(crate, nx):
         if not t['args'] or (s not in UNIT and s not in MULTI):
             continue
         e = nx.call_expr(t, bi)
-        path = self_path(e[2][0])
+        recv = e[2][0]
+        path = self_path(recv)
+        hops = 0
+        while path is None and hops < 3:
+            r_ = strip_refs(recv)
+            if r_[0] == 'call' and short(r_[1]) in ('into_iter', 'by_ref', 'iter') and r_[2]:
+                recv = r_[2][0]
+                path = self_path(recv)
+                hops += 1
+            else:
+                break
         if path is None:
             continue
         rec = adv.setdefault(path, {'kind': 'unit', 'ops': set(), 'pred': None, 'governs': False, 'line': t['line']})
         rec['ops'].add(s)
+        lp = nx.loop_of(bi)
+        if s in UNIT and lp is not None:
+            # `for x in &mut self.field { if P(x) { return Some(x) } }` advances the field like find(P)
+            rec['kind'] = 'multi'
+            rec['ops'].add('loop')
+            site = e[3]
+            is_item = lambda x: x[0] == 'field' and x[2] == '0' and norm(x[1])[0] == 'downcast' and norm(x[1])[2] == 'Some' and norm(norm(x[1])[1])[0] == 'call' and norm(norm(x[1])[1])[3] == site
+            for bj in sorted(lp[1]):
+                for c in nx.conds(bj):
+                    if c['switch'] in lp[1] and c['kind'] in ('Gt', 'Ge', 'Lt', 'Le', 'Eq') and c.get('truth') is True and c.get('b') is not None:
+                        rec['pred'] = _desc(c['kind'], c['a'], c['b'], is_item)
         if s in MULTI:
             rec['kind'] = 'multi'
             if s in ('find', 'filter', 'position', 'skip_while', 'take_while') and len(e[2]) > 1:
